@@ -21,3 +21,4 @@ PROP = {'engine': 'stack',
  'level_note': 'exit statuses sampled from {0,1,2,3,137,255, signals 9/11/15}; process death is simulated by the fake supervisor; exit events are '
                'never delivered earlier than 20 ms after Exec returned',
  'technique': 'property-based testing (rapid) + fault enumeration: generated crash points, outcome table from the statement as oracle'}
+PROP['rule'] += ' Round-5 addition: bystander kind shutdown-linger - a second extension subscribed to SHUTDOWN that receives the event and stays until it is killed: the failure is still answered and the environment torn down.'
